@@ -36,6 +36,15 @@ CHECKS = {
         note=NOTE + " unimock 0.6.8 / mockall 0.12.1 derives as shipped.",
         technique="exhaustive enumeration of a finite configuration lattice on the real macro, decision-table model",
         ref="DESIGN.md §3 C10"),
+    "C15": dict(
+        text="(i) every attribute-argument token word up to length 3 (quick) / 4 (thorough) over a 23-token alphabet (option names, values, "
+             "punctuation, keywords, literals, a parenthesised group) on fn, mod, trait and impl items (~50k invocations in quick); (ii) 39 documented-misuse "
+             "and unsupported-item cases x both macro names, each in its own compiler process; (iii) every trait-method parameter-pattern word "
+             "<= 2 over 10 patterns x {declaration, default body} x 6 delegation kinds. For every invocation: no panic record and no `custom attribute "
+             "panicked`, the recorded output parses as Rust items, a rejection is reported by rustc inside the invocation's own lines; documented misuses "
+             "give their specific message on the line of the offending tokens.",
+        note=NOTE, technique="bounded-exhaustive enumeration of attribute token words / item kinds / pattern words through the real macro; diagnostic-channel oracle",
+        ref="DESIGN.md §3 C15"),
     "C16": dict(
         text="Every pattern word up to length 3 (quick) / 4 (thorough) over a 15-symbol pattern alphabet (plain, mut, ref, raw identifier, wildcard, "
              "tuple, tuple-struct with 1 binding, with binding+wildcard, struct pattern, reference pattern, binding named like the function, bindings "
